@@ -407,6 +407,17 @@ def is_repeat_with(ro: RepeatOperation, previous_st: Optional[Statement]):
             if (cast(Node, inc_dec.right).name != varname3 or
                 inc_dec.name != BinaryOperationNames.ADD.value):
                 return False
+            
+            # A counting loop tests "<=" and adds 1, or tests ">=" and adds -1.
+            # Anything else is a while loop that happens to end in an addition
+            step: Node = cast(Node, inc_dec.left)
+            if not isinstance(step, ConstantValue):
+                return False
+            if not ((cond.name == BinaryOperationNames.LTE.value
+                     and step.name == '1')
+                    or (cond.name == BinaryOperationNames.GTE.value
+                        and step.name == '-1')):
+                return False
     
             return True
     
